@@ -41,7 +41,8 @@
 (*   [half, kind, area, rad, rects, p0, edges, trials]                     *)
 (* kind[i] in {"soft","hard","fixed"}; rad[i] = radius of the disc of      *)
 (* area[i]; rects[i] = <<x1,y1,x2,y2>> tuples (die coordinates) of a hard  *)
-(* or fixed module, <<>> for a soft one; p0[i] = its centre as loaded;     *)
+(* or fixed module, <<>> for a soft one and for a fixed terminal (a pin:   *)
+(* area 0, only a centre); p0[i] = its centre as loaded;                   *)
 (* edges = <<weight, <<node, ...>>>> hyper-edges.                          *)
 (***************************************************************************)
 EXTENDS Geometry, TLC, Json
@@ -91,6 +92,7 @@ CeilRad(a) == CHOOSE r \in 0..a : 355 * r * r >= 113 * a /\ (r = 0 \/ 355 * (r -
 \* rectangles of hard / fixed modules: templates around their own centroid (0,0)
 Template(k) == CASE k = 1 -> << <<-1, -1, 1, 1>> >>                          \* 2x2 square
                  [] k = 2 -> << <<-2, -1, 0, 1>>, <<0, -1, 2, 1>> >>         \* 4x2 bar of two squares
+                 [] k = 4 -> <<>>                                            \* a fixed terminal (pin): no area, no rectangle, only a centre
                  [] OTHER -> << <<-1, -2, 1, 0>>, <<-1, 0, 1, 2>>, <<-1, 2, 1, 4>>, <<-1, -4, 1, -2>> >>  \* 2x8 column
 Shift(rs, dx, dy) == [ k \in DOMAIN rs |-> <<rs[k][1] + dx, rs[k][2] + dy, rs[k][3] + dx, rs[k][4] + dy>> ]
 RArea(t) == (t[3] - t[1]) * (t[4] - t[2])
